@@ -191,7 +191,11 @@ func validate(c Case) error {
 			return fmt.Errorf("harness: step %d (%s) outside the input domain: %s", i, s.K, fmt.Sprintf(f, a...))
 		}
 		switch s.K {
-		case "rotate", "reopen":
+		case "reopen":
+		case "rotate":
+			if c.Mode != "bare" {
+				return bad("segment switches are driven directly only in bare mode (the DB owns them otherwise)")
+			}
 		case "lsm":
 			if c.Mode != "db" || s.N <= 0 {
 				return bad("lsm step needs db mode and n>0")
